@@ -2,6 +2,15 @@
 # Regenerates MANIFEST.json from the table below (single source of truth).
 import json
 CHECKS = {
+ "C02": dict(cat="exploration", technique="runtime monitor: validate()/errors()/valid() vs independent reachability evaluator; exhaustive failure placement + random worlds",
+   text="The real validate()/errors()/valid() run on graphs built by the real builder and are compared with an evaluator that reads only public graph data: verdict equivalence both ways, reported error in the reachable-failure set, referrer among followed edges. Exhaustive failure placement (7 edge kinds^2 x 9 failure kinds x 0-3 redirect hops x 3 build kinds x 36 option sets x 2 root sets) plus seeded random worlds.",
+   note="evaluator written from the statement; resolution errors on type edges count only for type-checked modules", ref="§3 C02"),
+ "C15": dict(cat="exploration", technique="runtime monitor: real walk iterator vs independent reachability evaluator (two formulations)",
+   text="The real walk iterator is driven (with random skip_previous_dependencies) on graphs from generated worlds, with and without fast-check modules, and its yielded sequence is compared with the evaluator's reachable set (set equality, no duplicates) under random root subsets and all option combinations; errors() compared with the evaluator's failure set.",
+   note="evaluator reads only public data; worklist formulation cross-checked against a naive fixpoint on every unskipped walk", ref="§5 C15"),
+ "C20": dict(cat="exploration", technique="runtime monitor: enumeration against own WHATWG decoders; Miri on the Arc<str>/Arc<[u8]> reinterpretation (thorough)",
+   text="Every byte string up to length 2 (quick) / 3 (thorough) over an 18-byte alphabet x 5 BOM prefixes x 13 charset labels x file/https x 4 media kinds goes through a real build; stored text, try_get_original_bytes(), refcounts and sizes are compared with the harness's own UTF-8/UTF-16/windows-1252 decoders. Thorough additionally runs a slice under Miri (UB / leak detection for the unsafe transmute pair).",
+   note="charset selection rule is deno_media_type's documented contract; parsing disabled via the public ModuleAnalyzer trait", ref="§6 C20"),
  "C14": dict(cat="exploration", technique="runtime monitor: lookups vs walk on enumerated redirect graphs",
    text="Every lookup API is compared, on the real graph built by the real builder, with what a single-root walk reaches, for every root / dependency target / redirect source of ~2 600 enumerated redirect shapes (chain length 0-14 x terminal kind incl. cycles x loader limit x entry form x graph kind) plus seeded random lockfile-redirect shapes. Held-on-observed only.",
    note="trusts ModuleGraph::walk as the reference (C15 checks the walk itself); structural classes 'cycle' and 'slot-shadowed' are known findings", ref="§5 C14"),
